@@ -774,8 +774,10 @@ Definition egress_env : Type := (iface * option ipaddr * bool)%type.
 Definition if_respond (ev : env) (p : ippacket) (e : egress_env) : outcome (egress_env * Z) :=
   let '(st, _, res) := e in
   let na := Some (p_dst p) in
-  (* while fragments of a previous packet are unsent, a packet that needs fragmentation stays in its socket *)
-  if (a_ver (p_dst p) =? 4) && (pkt_total_len p >? if_mtu st) && negb (if_frag_finished st)
+  (* while fragments of a previous packet are unsent, the next packet of any socket stays in its
+     socket: one that needs fragmentation would be dropped, one that does not would overtake the
+     remaining fragments on the wire *)
+  if negb (if_frag_finished st)
   then Ok ((st, na, res), EMIT_BUSY)
   else if negb (if_has_token st) then Ok ((st, na, res), EMIT_EXHAUSTED)
   else
